@@ -24,7 +24,7 @@ RULE = ("seeded random histories (length 10-30) over the op kinds new/new-collid
         "collision pattern")
 ASSUMPTIONS = ["the number chosen for a _BAK<n> suffix is not asserted, only that the old model survives "
                "under an unused name starting with <name>_BAK"]
-MIN_COUNTERS = {"quick": {"registry_checks": 500, "collisions": 50, "isolation_snapshots": 500},
+MIN_COUNTERS = {"quick": {"registry_checks": 2000, "collisions": 150, "isolation_snapshots": 5000},
                 "thorough": {"registry_checks": 5000, "collisions": 500, "isolation_snapshots": 5000}}
 
 NAMES = ["X", "Y", "Z", "X_BAK1", "X_BAK2", "Y_BAK1"]
@@ -283,6 +283,8 @@ def run_case(case):
                     r = recs[op["idx"]]
                     if not r.open:
                         continue
+                    if r.xrefs:
+                        continue      # a saved reference into another model needs that model at load time
                     if saved:
                         shutil.rmtree(saved[0], ignore_errors=True)
                     p = os.path.join(tmp, "sv")
